@@ -485,6 +485,16 @@ func checkSenders(r *vp.Recorder) {
 		multiaddr.StringCast("/ip6/2001:db8::1/tcp/9/tls/http/http-path/a%2Fb"),
 	}
 	pub := fixture.Key("ed25519", 7)
+	// addresses that already carry a peer ID component: a relay circuit, another
+	// peer's ID at the end, the publisher's own ID at the end. "Appended to each
+	// address" has no exception for them.
+	relay, otherPeer := fixture.Key("ed25519", 8), fixture.Key("secp256k1", 9)
+	valid = append(valid,
+		multiaddr.StringCast("/ip4/192.0.2.7/tcp/4001/p2p/"+relay.ID.String()+"/p2p-circuit"),
+		multiaddr.StringCast("/ip4/192.0.2.8/tcp/4001/p2p/"+otherPeer.ID.String()),
+		multiaddr.StringCast("/dns4/ads.example.com/tcp/443/https/p2p/"+pub.ID.String()),
+	)
+	nValid := len(valid)
 	n := memnet.New()
 	var mu sync.Mutex
 	var gotBody []byte
@@ -507,7 +517,7 @@ func checkSenders(r *vp.Recorder) {
 		if len(cur) == 3 {
 			return
 		}
-		for i := 0; i < 4; i++ {
+		for i := 0; i <= nValid; i++ {
 			gen(append(cur, i))
 		}
 	}
@@ -532,7 +542,7 @@ func checkSenders(r *vp.Recorder) {
 				msg := message.Message{Cid: c}
 				var want []string
 				for _, i := range l {
-					if i < 3 {
+					if i < nValid {
 						msg.Addrs = append(msg.Addrs, valid[i].Bytes())
 						want = append(want, valid[i].String())
 					} else {
